@@ -6,14 +6,17 @@ namespace vo {
 enum { C_SETKEY, C_CLAIM_SET, C_CLAIM_DEL, C_LEEWAY, C_SETCB, C_CLOCK, C_VERIFY, C_ERRCLR, C_N };
 static const char *CN[] = {"setkey", "claim_set", "claim_del", "time_leeway", "setcb", "clock", "verify", "error_clear"};
 struct COp { int k = 0, a = 0, b = 0; };
-enum { VCB_NONE, VCB_SELECT, VCB_FAIL, VCB_MUTATE, VCB_KID, VCB_N };
-static const char *VCBN[] = {"none", "selects-key+alg", "fails", "mutates-token", "selects-key-by-kid"};
+enum { VCB_NONE, VCB_SELECT, VCB_FAIL, VCB_MUTATE, VCB_KID, VCB_ALG_ONLY, VCB_MISMATCH, VCB_KEY_NOALG, VCB_N };   // the last three return 0 and leave the config in a state the key/alg policy refuses
+static const char *VCBN[] = {"none", "selects-key+alg", "fails", "mutates-token", "selects-key-by-kid", "sets-alg-without-key", "sets-alg-other-than-the-key's", "selects-key-without-alg"};
 struct VCtx { int kind; };
 static int checker_cb(jwt_t *jwt, jwt_config_t *c) {
   VCtx *x = (VCtx *)c->ctx;
   switch (x->kind) {
   case VCB_SELECT: c->key = keytab()[1].lk->item; c->alg = JWT_ALG_HS256; return 0;
   case VCB_FAIL: return 1;
+  case VCB_ALG_ONLY: c->key = nullptr; c->alg = JWT_ALG_HS256; return 0;
+  case VCB_MISMATCH: c->key = keytab()[1].lk->item; c->alg = JWT_ALG_HS512; return 0;
+  case VCB_KEY_NOALG: c->key = keytab()[0].lk->item; c->alg = JWT_ALG_NONE; return 0;
   case VCB_KID: { jwt_value_t v = val_get(JWT_VALUE_STR, "kid"); if (jwt_header_get(jwt, &v) == JWT_VALUE_ERR_NONE && v.str_val && !strcmp(v.str_val, "known")) { c->key = keytab()[1].lk->item; c->alg = JWT_ALG_HS256; } return 0; }   // per-token choice: must not stick to the checker
   case VCB_MUTATE: { jwt_value_t v = val_str("zz", "1", 1); jwt_claim_set(jwt, &v); jwt_header_del(jwt, "typ"); return 0; }
   }
